@@ -1,13 +1,13 @@
 (* C04/Properties.v — property theorems only.
-   PARTIAL: one technique per walk (scan; CFI through the abstract correct oracle), for stacks of
-   UNBOUNDED depth (induction on the list of frame specs).  Frame-pointer chains and mixed techniques
-   are covered by the correspondence run only (design/C04.md). *)
+   PARTIAL: one technique per walk (scan; frame-pointer chains; CFI through the abstract correct oracle and
+   through C06's evaluator for a concrete rule), for stacks of UNBOUNDED depth (induction on the list of frame
+   specs).  Technique-per-frame mixes are covered by the correspondence run only (design/C04.md). *)
 From Coq Require Import Lia ZArith List.
-From RM Require Import C05.Model C05.Proofs C04.Model C04.Proofs.
+From RM Require Import C05.Model C05.Proofs C04.Model C04.Proofs C04.ProofsFp.
 Import ListNotations.
 Open Scope Z_scope.
 
-(* scan: for every architecture meeting [scan_arch] (x86, amd64, arm, arm64/arm64_old, mips64 below), every
+(* scan: for every architecture meeting [scan_arch] (x86, amd64, arm, arm64/arm64_old, mips32, mips64 below), every
    list of frame specs that satisfies the boolean precondition [scan_wf_layout], any module lookup, any
    instruction-validity oracle accepting the planted return addresses and rejecting the padding word,
    no CFI: the walker returns the context frame followed by exactly the laid-out chain
@@ -44,9 +44,30 @@ Theorem c04_recovers_chain_partial_cfi :
 Proof. exact cfi_recovers_gen. Qed.
 Print Assumptions c04_recovers_chain_partial_cfi.
 
+(* frame-pointer chains: [saved fp][return address][gap words of locals] per call, fp = sp = base in the context,
+   no CFI: for x86, amd64 (Windows slack scan or not), arm on iOS and arm64 (= arm64_old) the walker follows the
+   chain for EVERY depth: one frame per call with the right return address, instruction = ra - adj,
+   sp = just above the return-address slot, the recovered frame pointer, trust frame_pointer, validity
+   {ip, sp, fp}; at the end of the chain every technique gives up and the walk stops. *)
+Theorem c04_recovers_chain_partial_fp :
+  forall p a os module_at max_module_addr cfi_walk instr_valid base fs ip0 fuel,
+    fp_arch a os ->
+    (forall c g f, cfi_walk c g f = None) ->
+    fp_wf_layout a instr_valid base fs = true ->
+    (length fs < fuel)%nat ->
+    let '(r, v, mem) := fp_layout a base ip0 fs in
+    walk_stack current_code p a os mem module_at max_module_addr cfi_walk instr_valid fuel r v
+    = Ret (from_context r v TContext :: fp_chain a base 0 fs).
+Proof. exact fp_recovers_gen. Qed.
+Print Assumptions c04_recovers_chain_partial_fp.
+
+Theorem c04_fp_archs : (forall os, fp_arch x86 os) /\ (forall os, fp_arch amd64 os) /\ (forall os, fp_arch arm64 os) /\ fp_arch arm OS_IOS.
+Proof. exact (conj fp_arch_x86 (conj fp_arch_amd64 (conj fp_arch_arm64 fp_arch_arm_ios))). Qed.
+Print Assumptions c04_fp_archs.
+
 (* the architectures the two theorems apply to *)
-Theorem c04_scan_archs : scan_arch x86 /\ scan_arch amd64 /\ scan_arch arm /\ scan_arch arm64 /\ scan_arch mips64.
-Proof. exact (conj scan_arch_x86 (conj scan_arch_amd64 (conj scan_arch_arm (conj scan_arch_arm64 scan_arch_mips64)))). Qed.
+Theorem c04_scan_archs : scan_arch x86 /\ scan_arch amd64 /\ scan_arch arm /\ scan_arch arm64 /\ scan_arch mips32 /\ scan_arch mips64.
+Proof. exact (conj scan_arch_x86 (conj scan_arch_amd64 (conj scan_arch_arm (conj scan_arch_arm64 (conj scan_arch_mips32 scan_arch_mips64))))). Qed.
 Print Assumptions c04_scan_archs.
 Theorem c04_cfi_archs : cfi_arch x86 /\ cfi_arch amd64 /\ cfi_arch arm /\ cfi_arch arm64 /\ cfi_arch mips32 /\ cfi_arch mips64.
 Proof. exact (conj cfi_arch_x86 (conj cfi_arch_amd64 (conj cfi_arch_arm (conj cfi_arch_arm64 (conj cfi_arch_mips32 cfi_arch_mips64))))). Qed.
@@ -76,6 +97,22 @@ Example c04_nonvacuous_scan_wf64 :
   scan_wf_layout arm64 nv_iv 140724603453440 (nv_specs 64) = true /\
   length (nv_specs 64) = 64%nat.
 Proof. repeat split; vm_compute; reflexivity. Qed.
+
+Definition nv_specs4 (n : nat) : list frame_spec :=
+  map (fun i => {| fs_gap := 4 + Z.of_nat (i mod 7); fs_ra := 1073742080 + 16 * Z.of_nat i |}) (seq 0 n).
+Example c04_nonvacuous_scan_mips32_wf64 : scan_wf_layout mips32 nv_iv 2147483648 (nv_specs4 64) = true.
+Proof. vm_compute. reflexivity. Qed.
+
+Example c04_nonvacuous_fp_wf64 :
+  fp_wf_layout x86 nv_iv 2147483648 (nv_specs 64) = true /\ fp_wf_layout amd64 nv_iv 140724603453440 (nv_specs 64) = true /\
+  fp_wf_layout arm64 nv_iv 140724603453440 (nv_specs 64) = true.
+Proof. repeat split; vm_compute; reflexivity. Qed.
+
+Example c04_nonvacuous_fp_run :
+  let '(r, v, mem) := fp_layout amd64 140724603453440 1073741904 (nv_specs 64) in
+  exists fs, walk_stack current_code Debug amd64 OS_WINDOWS mem (fun _ => None) 0 (fun _ _ _ => None) nv_iv (fuel_for mem) r v = Ret fs /\
+             length fs = 65%nat /\ map f_trust (firstn 2 (tl fs)) = [TFramePointer; TFramePointer].
+Proof. cbn [fp_layout]. eexists. split; [vm_compute; reflexivity|]. split; reflexivity. Qed.
 
 Example c04_nonvacuous_cfi_wf64 :
   cfi_wf_layout amd64 140724603453440 (nv_specs 64) = true /\ cfi_wf_layout mips32 2147483648 (nv_specs 64) = true.
